@@ -132,11 +132,20 @@ def m_b64encode(ex, st, args, kwargs, node):
     v = args[0]
     if isinstance(v, PTok) and v.what == "bin":
         return [(st, PTok("b64", v.a))]
+    if isinstance(v, PV) and z3.is_true(sp.norm(V.is_Bytes(v.t))):       # bytes / bytearray passed directly
+        return [(st, PTok("b64", sp.norm(V.bp(v.t))))]
     return ex.havoc_call(st, "b64encode", args, node)
 
 
 def m_b64decode(ex, st, args, kwargs, node):
     v = args[0]
+    if isinstance(v, PV) and not kwargs:                                   # ASCII text is accepted as it is
+        s2 = ex.fork_raise(st, sp.norm(z3.Not(V.is_Str(v.t))), "TypeError")
+        if s2 is None:
+            return []
+        st, v = s2, PTok("enc", sp.norm(V.s(v.t)))
+    elif isinstance(v, VStr) and not kwargs:
+        v = PTok("enc", v.t)
     if isinstance(v, PTok) and v.what == "enc":
         ex.exc_any(st.fork(), f"{ex.loc(node)} base64.b64decode (binascii.Error)")
         return [(st, PTok("bin", sp.UNB64(v.a)))]
@@ -179,7 +188,9 @@ def install_models(reg):
     reg.ext_models["dataclasses.is_dataclass"] = m_is_dataclass
     reg.ext_models["dataclasses.fields"] = m_fields
     reg.ext_models["base64.b64encode"] = m_b64encode
+    reg.ext_models["base64.standard_b64encode"] = m_b64encode
     reg.ext_models["base64.b64decode"] = m_b64decode
+    reg.ext_models["base64.standard_b64decode"] = m_b64decode
     reg.ext_models["typing.get_origin"] = m_get_origin
     reg.ext_models["typing.get_args"] = m_get_args
     reg.ext_models["typing.get_type_hints"] = m_get_type_hints
@@ -580,22 +591,13 @@ UNMODELLED = "c05!value-of-unmodelled-kind"
 
 
 def _untrusted(pc, goal):
-    """A counter-model that only says 'the value produced by an unmodelled library call is not JSON-able' is not a
-    counter-example by itself: the obligation becomes `unknown` and the native replayer decides (VIOLATION with a
-    failing document, else UNDECIDED)."""
-    seen, stack = set(), [goal] + list(pc)
-    while stack:
-        x = stack.pop()
-        if x.get_id() in seen:
-            continue
-        seen.add(x.get_id())
-        if z3.is_app(x) and (x.decl().name().startswith(("c05!overapprox", UNMODELLED)) or
-                             (x.num_args() > 0 and x.decl().kind() == z3.Z3_OP_UNINTERPRETED and x.decl().name() in sp.DEFS)):
-            # marks of over-approximated paths, or a recursive spec function left folded on a symbolic argument: the solver's
-            # model interprets it freely, so `sat` is not a counter-example by itself
-            return True
-        stack.extend(x.children())
-    return False
+    """Policy of this pack: a `sat` answer never becomes a VIOLATION by itself.  The VCs mention spec functions that stay
+    folded on symbolic arguments, values of unmodelled calls and marks of over-approximated paths, so a model may be an
+    artefact of the encoding (measured: behaviour-preserving refactorings gave such models).  Every non-proved obligation is
+    `unknown`; the native replayer (function-level differential against the executable SER/DESER contract, directed
+    document / CLI scopes) then either produces a failing input on the real code (VIOLATION with replay) or the obligation
+    is UNDECIDED.  Proofs (`unsat`) are unaffected."""
+    return True
 
 
 from pyvc import solve as _solve
@@ -666,7 +668,7 @@ def store_site_contracts(reg):
         raises=[Raises("Exception", sub=True, label="malformed attribute values (OverflowError of int(inf) etc.): outside C05")],
         note="what OdsSheet.data (List[List[Any]]) receives: the first component is None/bool/int/float/str on every path "
              "(the cell is an abstract xml element: every value-type / attribute text)"))
-    EXECUTOR_KW[f"{ODS_PY}::_extract_cell_value"] = {"inline_calls": False, "abstract": True}
+    EXECUTOR_KW[f"{ODS_PY}::_extract_cell_value"] = {"inline_calls": False, "abstract": True, "inline_local": True}
     return out
 
 
@@ -844,6 +846,28 @@ def covers(repo, tier):
     return {"obligations": obls}
 
 
+def returns_serialize_of_self(body):
+    """`return serialize_extraction(self[, include_binary=True])`, possibly through single-assignment temporaries."""
+    temps = {}
+    for st_ in body[:-1]:
+        if isinstance(st_, ast.Assign) and len(st_.targets) == 1 and isinstance(st_.targets[0], ast.Name) and st_.targets[0].id not in temps:
+            temps[st_.targets[0].id] = st_.value
+        elif not (isinstance(st_, ast.Expr) and isinstance(st_.value, ast.Call) and ast.unparse(st_.value.func).startswith(("logger.", "logging."))):
+            return False
+    if not body or not isinstance(body[-1], ast.Return):
+        return False
+    e = body[-1].value
+    seen = 0
+    while isinstance(e, ast.Name) and e.id in temps and seen < 5:
+        e, seen = temps[e.id], seen + 1
+    if not (isinstance(e, ast.Call) and ast.unparse(e.func) in ("serialize_extraction", "serialization.serialize_extraction")):
+        return False
+    args = [ast.unparse(a) for a in e.args]
+    kws = {k.arg: ast.unparse(k.value) for k in e.keywords}
+    pos_ok = args == ["self"] or (args == [] and kws.get("value") == "self")
+    return pos_ok and all(k in ("value", "include_binary") for k in kws) and kws.get("include_binary", "True") == "True"
+
+
 def glue(repo, tier):
     """The public methods are thin wrappers of the functions under contract (syntactic; unrecognised shape -> UNDECIDED)."""
     obls = []
@@ -855,8 +879,8 @@ def glue(repo, tier):
             if not body and q.split(".")[0] in ("ExtractionInterface", "UnitInterface"):
                 continue      # abstract declaration
             n += 1
-            if not (len(body) == 1 and isinstance(body[0], ast.Return) and ast.unparse(body[0].value) == "serialize_extraction(self)"):
-                bad.append(f"{q}: {ast.unparse(body[0])[:60] if body else 'empty'}")
+            if not returns_serialize_of_self(body):
+                bad.append(f"{q}: {ast.unparse(body[-1])[:60] if body else 'empty'}")
     obls.append(ground_obligation("C05/data_types.py::to_json/glue#every-to_json-is-serialize_extraction-of-self", n >= 30 and not bad, "; ".join(bad) or f"{n} to_json methods",
                                   DT_PY, kind="glue", backend="ground", definite=False))
     fj = m.functions.get("ExtractionInterface.from_json")
@@ -944,7 +968,7 @@ def native_scope(repo, tier):
     return {"obligations": obls, "undecided": und}
 
 
-EXTRA = [registry, ods_cell_kinds, covers, glue, store_site_coverage, native_scope]
+EXTRA = [registry, covers, glue, store_site_coverage, native_scope]
 
 
 def recorded_exclusions():
